@@ -107,6 +107,35 @@ func finish(r *scen.Runner) *harn.Failure {
 			actionsOf[n.UUID] = n.Actions
 		}
 	}
+	// translations: flow uuid -> language -> item uuid -> property -> values
+	var locs struct {
+		Flows []struct {
+			UUID         string                                    `json:"uuid"`
+			Localization map[string]map[string]map[string][]string `json:"localization"`
+		} `json:"flows"`
+	}
+	_ = json.Unmarshal(r.Case.Assets, &locs)
+	locOf := map[string]map[string]map[string]map[string][]string{}
+	for _, f := range locs.Flows {
+		locOf[f.UUID] = f.Localization
+	}
+	// the language every localized item of this session was resolved in, if that was the same throughout: no language
+	// change, no contact/environment refresh, and not the base language
+	stableLang := ""
+	if r.Session.Contact() != nil {
+		stableLang = string(r.Session.MergedEnvironment().DefaultLanguage())
+		for _, sp := range r.Sprints {
+			for _, raw := range sp.Events {
+				s := string(raw)
+				if strings.Contains(s, `"type":"contact_language_changed"`) || strings.Contains(s, `"type":"contact_refreshed"`) || strings.Contains(s, `"type":"environment_refreshed"`) {
+					stableLang = ""
+				}
+			}
+		}
+		if stableLang == "eng" {
+			stableLang = ""
+		}
+	}
 	cache := map[assets.FlowUUID]*inspection{}
 	observed := []string{}
 	for _, run := range r.Session.Runs() {
@@ -264,6 +293,25 @@ func finish(r *scen.Runner) *harn.Failure {
 				}
 				var am map[string]any
 				_ = json.Unmarshal(a, &am)
+				// the translation the run used for this action (session language stable and not the base language)
+				if stableLang != "" && am["type"] == "send_msg" {
+					for prop, vals := range locOf[string(f.UUID())][stableLang][fmt.Sprint(am["uuid"])] {
+						for _, v := range vals {
+							for _, m := range fieldRef.FindAllStringSubmatch(v, -1) {
+								if !insp.hasDep("field", m[1]) {
+									return harn.Failf("translation-dependency-listed", "flow %q sent a message whose %s translation in %s (%q) references field %q, not among the dependencies", f.Name(), prop, stableLang, v, m[1])
+								}
+								observed = append(observed, "translation-ref")
+							}
+							for _, m := range globalRef.FindAllStringSubmatch(v, -1) {
+								if !insp.hasDep("global", m[1]) {
+									return harn.Failf("translation-dependency-listed", "flow %q sent a message whose %s translation in %s (%q) references global %q, not among the dependencies", f.Name(), prop, stableLang, v, m[1])
+								}
+								observed = append(observed, "translation-ref")
+							}
+						}
+					}
+				}
 				if ch, ok := am["channel"].(map[string]any); ok && am["type"] == "set_contact_channel" {
 					if !insp.hasDep("channel", fmt.Sprint(ch["uuid"])) {
 						return harn.Failf("dependency-listed", "flow %q executed set_contact_channel for %v which is not among its dependencies", f.Name(), ch["name"])
@@ -371,7 +419,7 @@ func classify(c scen.Case, f *harn.Failure) string {
 }
 
 var opts = scen.GenOpts{
-	World:    world.Opts{MaxFlows: 3, MaxNodes: 5, QueryGroups: true, Languages: []string{"fra"}, Voice: true, Background: true, NoVariableRefs: true, WebhookRefs: true},
+	World:    world.Opts{MaxFlows: 3, MaxNodes: 5, QueryGroups: true, Languages: []string{"fra"}, Voice: true, Background: true, NoVariableRefs: true, WebhookRefs: true, TranslateMissing: true},
 	Refresh:  false,
 	Restarts: true,
 	MaxSteps: 6,
